@@ -714,7 +714,7 @@ def _bytes(x):
     return s
 @model_re(r'^core::str::<impl str>::(is_empty|as_bytes|starts_with|ends_with|contains|is_char_boundary|to_owned|trim|trim_start|trim_end|find|get|as_ptr|to_string|to_lowercase|to_uppercase|eq_ignore_ascii_case|repeat|split_at)$|'
           r'^String::(as_str|as_bytes|push|push_str|clear|truncate|pop|insert|insert_str|capacity|reserve|with_capacity|from_utf8_lossy|from_utf8_unchecked|into_boxed_str|as_mut_str|chars|bytes|remove)$|^<String as From<.*>>::from$|^<str as ToOwned>::to_owned$|^<String as FromStr>::from_str$|'
-          r'^std::str::from_utf8$|^core::str::from_utf8$|^from_utf8$|^str::from_utf8$|^std::string::String::from_utf8_lossy$|^<Cow<\'_, str> as (Deref|ToString|AsRef<str>)>::(deref|to_string|as_ref)$|^Cow::<\'_, str>::(into_owned|to_mut)$|^<String as (AsRef<str>|Borrow<str>|AsRef<\[u8\]>)>::(as_ref|borrow)$')
+          r'^std::str::from_utf8$|^core::str::from_utf8$|^from_utf8$|^str::from_utf8$|^std::string::String::from_utf8_lossy$|^<Cow<\'_, str> as (Deref|ToString|AsRef<str>)>::(deref|to_string|as_ref)$|^Cow::<\'_, str>::(into_owned|to_mut)$|^Cow::(into_owned|to_mut)$|^<String as (AsRef<str>|Borrow<str>|AsRef<\[u8\]>)>::(as_ref|borrow)$')
 def _(M, a, c):
     nm = norm_name(c); fn = nm.split('::')[-1]
     if fn == 'with_capacity': return Native('String', b=[])
@@ -894,6 +894,18 @@ def _(M, a, c):
     if fn == 'is_poisoned': return False
     if fn == 'get_mut': return ok(Ref(m.d['slot'], 0))
     return ok(m.d['slot'][0])
+@model_re(r'^(std::cell::)?Cell::(<.*>::)?(new|get|set|replace|take|into_inner|get_mut|update)$')
+def _(M, a, c):
+    fn = norm_name(c).split('::')[-1]
+    if fn == 'new': return Native('Cell', slot=[a[0]])
+    cell = V(a[0]) if isinstance(a[0], Ref) else a[0]
+    if fn == 'get': return generic_clone(M, cell.d['slot'][0])
+    if fn == 'set': cell.d['slot'][0] = a[1]; return UNIT
+    if fn == 'replace': old = cell.d['slot'][0]; cell.d['slot'][0] = a[1]; return old
+    if fn == 'into_inner': return cell.d['slot'][0]
+    if fn == 'get_mut': return Ref(cell.d['slot'], 0)
+    if fn == 'update': cell.d['slot'][0] = callf(M, a[1], [cell.d['slot'][0]]); return UNIT
+    raise Unsupported("Cell::" + fn)      # (take: needs the Default of the content type)
 @model_re(r'^std::cell::RefCell::(new)$|^RefCell::(new|borrow|borrow_mut|try_borrow|try_borrow_mut|into_inner)$|^<std::cell::Ref(Mut)?<.*> as Deref(Mut)?>::deref(_mut)?$')
 def _(M, a, c):
     fn = norm_name(c).split('::')[-1]
@@ -1043,6 +1055,9 @@ def generic_eq(M, p, q):
             r = True
             for x, y in zip(pb[plo:phi], qb[qlo:qhi]): r = band(r, generic_eq(M, x, y))
             return r
+        if kp == 'FromUtf8Error' and isinstance(q, Native) and q.kind == 'FromUtf8Error':
+            if p.d.get('sym') or q.d.get('sym'): raise Unsupported('== on Utf8Error values over symbolic bytes')
+            return (p.d['valid_up_to'], p.d['error_len']) == (q.d['valid_up_to'], q.d['error_len'])
         if kp in ('Arc', 'Rc'): return generic_eq(M, p.d['inner'], q.d['inner'])
         if kp == 'Box': return generic_eq(M, p.d['slot'][0], q.d['slot'][0])
         raise Unsupported("== on " + kp)
